@@ -28,8 +28,7 @@ func H_C05_leaves() {
 	a.Col = E_V_Colour(symChoose("a.col", 3)) * 2 // 0 unset, 2 RED, 4 (undefined but non-zero)
 	b.Col = E_V_Colour(symChoose("b.col", 3)) * 2
 	overwrite := symBool("overwrite")
-	as, _ := ygot.DeepCopy(a)
-	bs, _ := ygot.DeepCopy(b)
+	as, bs := symSnapshot(a), symSnapshot(b) // engine-made copies, independent of ygot.DeepCopy
 	var mI ygot.GoStruct
 	var err error
 	if overwrite {
